@@ -59,7 +59,8 @@ HtmlFrags == <<
 XmlFrags == <<
   F("mix", {"KeepWhitespace"}), F("nest", {"KeepWhitespace"}), F("cm", {"KeepWhitespace"}),
   F("cd", {"KeepWhitespace"}), F("pi", {"KeepWhitespace"}), F("attr", {"KeepWhitespace"}),
-  F("nl", {"KeepWhitespace"}), F("void", {"KeepWhitespace"}), F("ent", {"KeepWhitespace"}), F("tight", {}) >>
+  F("nl", {"KeepWhitespace"}), F("void", {"KeepWhitespace"}), F("ent", {"KeepWhitespace"}), F("tight", {}),
+  F("wsonly", {"KeepWhitespace"}) >>
 JsonFrags == <<
   F("arr", {"KeepNumbers", "Precision"}), F("obj", {"KeepNumbers", "Precision"}), F("top", {"KeepNumbers", "Precision"}),
   F("mixed", {"KeepNumbers", "Precision"}), F("neg", {"KeepNumbers", "Precision"}), F("nonum", {}) >>
